@@ -11,12 +11,12 @@ from pv import engine  # noqa: E402
 engine.setup_env()
 props = [json.loads(l) for l in open(os.path.join(ROOT, "properties.jsonl"))]
 NA_REASONS = json.load(open(os.path.join(ROOT, "tools", "not_applicable.json")))
+REGISTERED = set(open(os.path.join(ROOT, "tools", "registered.txt")).read().split())
 mods = {}
 for fn in sorted(os.listdir(os.path.join(ROOT, "pv", "props"))):
-    if fn.startswith("c") and fn.endswith(".py"):
+    if fn.startswith("c") and fn.endswith(".py") and fn[:3].upper() in REGISTERED:
         m = importlib.import_module("pv.props." + fn[:-3])
-        if getattr(m, "REGISTER", True):
-            mods[m.ID] = m
+        mods[m.ID] = m
 checks, na = [], []
 for p in props:
     pid = p["id"]
